@@ -242,25 +242,23 @@ pub fn run_turnpkt(run: &mut Run, live: &Live, pkt: &[u8], nt: bool) {
     });
 }
 
-/// one TURN/TCP frame read over a real loopback connection: header says `len`, `provided` body bytes follow, then EOF
-pub fn run_turntcp(run: &mut Run, live: &Live, buf_len: usize, len: u16, provided: usize, nt: bool) {
+/// one TURN/TCP message read over a real loopback connection: the server side writes `stream` and closes
+pub fn run_turntcp(run: &mut Run, live: &Live, buf_len: usize, stream: &[u8], nt: bool) {
     let l = std::panic::AssertUnwindSafe(live);
-    exec(run, "turntcp", &format!("{buf_len} {len} {provided}"), "TurnClient::recv", nt, None, move || {
+    let data = stream.to_vec();
+    exec(run, "turntcp", &format!("{buf_len} {}", hex(stream)), "TurnClient::recv", nt, None, move || {
         l.rt.block_on(async {
             use tokio::io::AsyncWriteExt;
             let lis = tokio::net::TcpListener::bind("127.0.0.1:0").await.unwrap();
             let addr = lis.local_addr().unwrap();
             let writer = tokio::spawn(async move {
                 let (mut s, _) = lis.accept().await.unwrap();
-                let mut frame = len.to_be_bytes().to_vec();
-                frame.extend(std::iter::repeat(0x5a).take(provided));
-                let _ = s.write_all(&frame).await;
+                let _ = s.write_all(&data).await;
                 let _ = s.shutdown().await;
             });
             let stream = tokio::net::TcpStream::connect(addr).await.unwrap();
             let client = TurnClient::verif_new_tcp(stream);
             let mut buf = vec![0u8; buf_len];
-            // a panic inside `recv` must surface to `exec`: run on this task
             let r = client.verif_recv(&mut buf).await;
             let _ = writer.await;
             match r { Ok(n) => format!("ok {n}"), Err(e) => anyhow_text(&e) }
@@ -367,17 +365,24 @@ pub fn special(run: &mut Run, rng: &mut Rng, thorough: bool) {
         run_turnpkt(run, &live, &p, true);
         if rng.chance(1, 4) && !p.is_empty() { let k = rng.below(p.len() as u64) as usize; run_turnpkt(run, &live, &p[..k], true); }
     }
-    // TURN/TCP frames: lengths around the receive buffer, truncated bodies
-    for (bl, len) in [(1500usize, 0u16), (1500, 1), (1500, 1499), (1500, 1500), (1500, 1501), (1500, 65535), (16, 16), (16, 17), (0, 0), (0, 1)] {
-        for prov in [len as usize, (len as usize).saturating_sub(1), 0] {
-            run_turntcp(run, &live, bl, len, prov, true);
+    // TURN/TCP messages: STUN / ChannelData headers with lengths around the receive buffer, truncated streams
+    for bl in [1500usize, 24, 20, 8, 4, 3, 0] {
+        for h0 in [0x00u8, 0x01, 0x40, 0x41, 0x7F, 0x80, 0xC0] {
+            for body in [0u16, 1, 3, 4, 5, (bl as u16).wrapping_sub(20), (bl as u16).wrapping_sub(19), (bl as u16).wrapping_sub(4), (bl as u16).wrapping_sub(3), 1476, 1480, 1481, 1496, 1497, 65535] {
+                let on_wire = if h0 & 0xC0 == 0x40 { 4 + (body as usize).div_ceil(4) * 4 } else { 20 + body as usize };
+                for prov in [on_wire, on_wire.saturating_sub(1), 4, 3, 0] {
+                    let mut st = vec![h0, 1]; st.extend_from_slice(&body.to_be_bytes()); st.extend(std::iter::repeat(0x5a).take(on_wire.saturating_sub(4)));
+                    st.truncate(prov.min(st.len()));
+                    if st.len() <= 3000 { run_turntcp(run, &live, bl, &st, true); }
+                }
+            }
         }
     }
     for _ in 0..(if thorough { 3_000 } else { 200 }) {
         let bl = *rng.pick(&[1500usize, 1500, 64, 2048]);
-        let len = match rng.below(4) { 0 => rng.range(0, bl as u64 + 2), 1 => rng.range(0, 65535), _ => rng.range(0, 200) } as u16;
-        let prov = if rng.chance(2, 3) { len as usize } else { rng.below(len as u64 + 1) as usize };
-        run_turntcp(run, &live, bl, len, prov, true);
+        let inner = if rng.chance(1, 2) { gen_stun(rng) } else { let n = rng.below(60) as usize; channel_data(0x4001, n as u16, &rng.bytes(n.div_ceil(4) * 4)) };
+        let mut st = inner; if rng.chance(1, 3) { let k = rng.below(st.len() as u64 + 1) as usize; st.truncate(k); } if rng.chance(1, 3) { st.extend(rng.bytes(7)); }
+        run_turntcp(run, &live, bl, &st, true);
     }
     // RTX unwrap
     run_rtx(run, &[], false);
@@ -390,7 +395,7 @@ pub fn replay_special(run: &mut Run, stream: &str, a: &[&str]) -> bool {
     match (stream, a.len()) {
         ("hpkt", 1) => { let l = Live::new(); run_hpkt(run, &l, &unhex(a[0]), true) }
         ("turnpkt", 2) => { let l = Live::new(); run_turnpkt(run, &l, &unhex(a[1]), true) }
-        ("turntcp", 3) => { let l = Live::new(); run_turntcp(run, &l, p(a[0]) as usize, p(a[1]) as u16, p(a[2]) as usize, true) }
+        ("turntcp", 2) => { let l = Live::new(); run_turntcp(run, &l, p(a[0]) as usize, &unhex(a[1]), true) }
         ("rtx", 1) => run_rtx(run, &unhex(a[0]), true),
         _ => return false,
     }
